@@ -1167,7 +1167,15 @@ def gen_trait(rng, name, prefix, max_methods=5, allow_child=True, tindex=0):
         # Sync: a trait with such a supertrait cannot be implemented by its opaque object
         # (rejected at compile time; part of the known C09 picture, not a runtime matter)
         supers = ""
-    used_t = any(getattr(x, "generic", False) for m in methods for x in list(m.args) + [m.ret])
+    uses_t = lambda m: any(getattr(x, "generic", False) for x in list(m.args) + [m.ret])
+    used_t = any(uses_t(m) for m in methods)
+    if used_t and not any(uses_t(m) for m in methods if not getattr(m, "skip", False)):
+        # the type parameter must occur in an exported method (the generated vtable is generic
+        # over it; a parameter that only #[skip_func] methods use is rejected at compile time)
+        for m in methods:
+            if getattr(m, "skip", False) and uses_t(m):
+                m.skip = False
+                m.attrs = [a for a in m.attrs if a != "#[skip_func]"]
     t.generic, t.supers = (generic if used_t else None), supers
     if any(getattr(m.ret, "self_return", False) for m in methods):
         # a state probe so that returned objects can be compared
